@@ -52,41 +52,111 @@ def _cvc5(smt2: str, timeout_s: float):
         os.unlink(path)
 
 
+def _ground_int_terms(exprs, limit=400):
+    """ground (variable-free) Int-sorted subterms, smallest first"""
+    seen, out = set(), []
+
+    def walk(e, depth_bound):
+        if e.get_id() in seen:
+            return
+        seen.add(e.get_id())
+        if z3.is_quantifier(e):
+            walk(e.body(), True)
+            return
+        for c in e.children():
+            walk(c, depth_bound)
+        if z3.is_int(e) and not _has_var(e) and len(out) < limit:
+            out.append(e)
+    for e in exprs:
+        walk(e, False)
+    return out
+
+
+def _has_var(e):
+    if z3.is_var(e):
+        return True
+    return any(_has_var(c) for c in e.children())
+
+
+def _size(e):
+    return 1 + sum(_size(c) for c in e.children())
+
+
+def instantiate_hints(hyps, neg_goal):
+    """Sound strengthening of a query that came back unknown: skolemise the negated goal and add instances of the
+    one-variable universally quantified hypotheses at terms built from the skolem constants (t, t-1, t+1, t-c, t+c-...)."""
+    g = z3.Goal()
+    g.add(neg_goal)
+    sk = z3.Tactic("snf")(g)[0]
+    sk_fmls = [sk[i] for i in range(len(sk))]
+    consts = [t for t in _ground_int_terms(sk_fmls) if z3.is_const(t) and t.decl().kind() == z3.Z3_OP_UNINTERPRETED]
+    base = [t for t in _ground_int_terms(list(hyps) + sk_fmls) if _size(t) <= 4][:25]
+    cands = []
+    for c in consts[:4]:
+        cands += [c, c - 1, c + 1]
+        for b in base:
+            if not z3.eq(b, c):
+                cands += [c - b, c - b - 1, c - b + 1, c + b]
+    cands = cands[:160]
+    extra = []
+    for h in list(hyps) + sk_fmls:
+        if z3.is_quantifier(h) and h.is_forall() and h.num_vars() == 1 and h.var_sort(0) == z3.IntSort():
+            for t in cands:
+                extra.append(z3.substitute_vars(h.body(), t))
+    return sk_fmls, extra
+
+
+def _check(hyps, extra, timeout_s):
+    s = z3.Solver()
+    s.set("timeout", int(timeout_s * 1000))
+    s.add(*hyps)
+    s.add(*extra)
+    return s, s.check()
+
+
 def _solve(i):
     ob = _OBS[i]
     timeout_s = _CFG.get("timeout_s", 10)
-    if ob.expect == "sat":
-        timeout_s = min(timeout_s, 3)
     t0 = time.time()
-    s = z3.Solver()
-    s.set("timeout", int(timeout_s * 1000))
-    s.add(*ob.hyps)
-    if ob.expect == "unsat":
-        s.add(z3.Not(ob.goal))
-    else:
-        s.add(ob.goal) if not z3.is_false(ob.goal) else None
-    r = s.check()
     res, solver, model, reason = "UNKNOWN", "z3", {}, ""
+    if ob.expect == "sat":
+        extra = [] if z3.is_false(ob.goal) else [ob.goal]
+        s, r = _check(ob.hyps, extra, min(timeout_s, 3))
+        res = "VACUOUS" if r == z3.unsat else ("PROVED" if r == z3.sat else "COVER-UNKNOWN")
+        return i, res, solver, time.time() - t0, model, ("" if r != z3.unknown else s.reason_unknown())
+    neg = z3.Not(ob.goal)
+    # stage 1: plain z3, short budget
+    s, r = _check(ob.hyps, [neg], min(timeout_s, 4))
+    if r == z3.unknown:
+        reason = s.reason_unknown()
+        # stage 2: sound instantiation hints (only ever turns unknown into unsat)
+        try:
+            sk, extra = instantiate_hints(ob.hyps, neg)
+            s2, r2 = _check(ob.hyps, list(sk) + extra, timeout_s)
+            if r2 == z3.unsat:
+                return i, "PROVED", "z3+hints", time.time() - t0, model, reason
+        except Exception as ex:  # pragma: no cover
+            reason += f" | hints: {ex}"
+        # stage 3: plain z3, full budget
+        if timeout_s > 4:
+            s, r = _check(ob.hyps, [neg], timeout_s)
     if r == z3.unsat:
-        res = "PROVED" if ob.expect == "unsat" else "VACUOUS"
+        res = "PROVED"
     elif r == z3.sat:
         m = s.model()
         model = {k: _model_value(m, t) for k, t in ob.probes.items()}
-        res = "REFUTED" if ob.expect == "unsat" else "PROVED"
+        res = "REFUTED"
     else:
         reason = s.reason_unknown()
-        if ob.expect == "sat":
-            res = "COVER-UNKNOWN"
-        elif _CFG.get("cvc5", True):
+        if _CFG.get("cvc5", True):
             try:
-                smt2 = s.to_smt2()
-                r2, err = _cvc5(smt2, timeout_s)
+                r2, err = _cvc5(s.to_smt2(), timeout_s)
             except Exception as ex:  # pragma: no cover
                 r2, err = "unknown", str(ex)
             if r2 == "unsat":
-                res, solver = ("PROVED" if ob.expect == "unsat" else "VACUOUS"), "cvc5"
+                res, solver = "PROVED", "cvc5"
             elif r2 == "sat":
-                res, solver = ("REFUTED" if ob.expect == "unsat" else "PROVED"), "cvc5"
+                res, solver = "REFUTED", "cvc5"
             else:
                 reason += " | cvc5: " + err
     return i, res, solver, time.time() - t0, model, reason
